@@ -273,7 +273,7 @@ func main() {
 		return
 	}
 	run := report.New("C09", "fault_enumeration")
-	run.Rule("faults applied to the real store while the checker holds it: F1 database handle closed under the repository; F2 byte flips / truncation of every table file and the MANIFEST at seeded offsets and single-bit flips inside the stored key of a listed record, then restart, every entry of the list probed; F3 a listed record's value overwritten (garbage / empty / truncated) through a second handle while the checker is down; F4 Cleanup overlapping in-flight lookups (both backends); F5 EIO injected by strace into every pread64 from the N-th on in a child doing lookups on a prepared disk image; F6 a swap that fails half way (target made non-renamable between 'old moved aside' and 'new moved in'), then lookups of a configured CRL; for listed and unlisted certificates at Repository.IsRevoked and CRLRevocationChecker.IsRevoked; oracle: under an active fault (Revoked=false, err=nil) for a listed certificate is a violation; for an unlisted one only when the fault provably hit the read; non-trivial = fault case in which the fault surfaced as an error or verifiably missed the read; distinct = fault case descriptor")
+	run.Rule("faults applied to the real store while the checker holds it: F1 database handle closed under the repository; F2 byte flips / truncation of every table file and the MANIFEST at seeded offsets and single-bit flips inside the stored key of a listed record, then restart, every entry of the list probed; F3 a listed record's value overwritten (garbage / empty / truncated) through a second handle while the checker is down; F4 Cleanup overlapping in-flight lookups (both backends); F5 EIO injected by strace into every pread64 from the N-th on in a child doing lookups on a prepared disk image; F7 the live database directory removed from work_dir followed by a refresh; F6 a swap that fails half way (target made non-renamable between 'old moved aside' and 'new moved in'), then lookups of a configured CRL; for listed and unlisted certificates at Repository.IsRevoked and CRLRevocationChecker.IsRevoked; oracle: under an active fault (Revoked=false, err=nil) for a listed certificate is a violation; for an unlisted one only when the fault provably hit the read; non-trivial = fault case in which the fault surfaced as an error or verifiably missed the read; distinct = fault case descriptor")
 	run.Assume("strict CDP mode for on-disk corruption cases, so that a store that cannot even be opened is denied by the strict gate rather than silently unknown", "F5: strace injects EIO into pread64 (goleveldb table reads) of a child process from the N-th call on, N per thread")
 	scratch, _ := report.Scratch("C09")
 	sut.QuietStderr(filepath.Join(scratch, "stderr.log"))
@@ -601,6 +601,26 @@ func main() {
 		s.run.Count("F6_swap_hook_hits", l2.HookCount("leveldb.update.old_moved_aside"))
 		s.judge("F6-failed-swap", "disk", l, false, "F6 swap failed between 'old moved aside' and 'new moved in' (target occupied), configured CRL")
 	}})
+
+	// F7: the directory of the live database vanishes from work_dir while the checker runs (a cleaning
+	// job, an operator); the next refresh cannot move it aside and the swap fails
+	for _, configured := range []bool{true, false} {
+		configured := configured
+		jobs = append(jobs, job{fmt.Sprintf("F7 configured=%v", configured), func(s *scn) {
+			l, err := s.load("disk", 60, !configured, configured)
+			if err != nil {
+				s.run.Inconclusive("F7 setup: " + err.Error())
+				return
+			}
+			defer l.chk.Stop()
+			if err := os.RemoveAll(l.targetDir()); err != nil {
+				s.run.Inconclusive("F7: " + err.Error())
+				return
+			}
+			l.chk.Refresh() // fails after ~5 s of rename retries
+			s.judge("F7-store-directory-vanished-then-refresh", "disk", l, false, fmt.Sprintf("F7 the live database directory was removed from work_dir, then a refresh ran (configured=%v)", configured))
+		}})
+	}
 
 	if !isShard {
 		run.RunShards(10, scratch)
